@@ -31,6 +31,27 @@ impl<T> Arc<T> {
     pub fn ptr_eq(a: &Self, b: &Self) -> bool {
         Rc::ptr_eq(&a.0, &b.0)
     }
+    // further std::sync::Arc API an edit of vm.rs may plausibly use (same meaning as std's, single-threaded)
+    pub fn strong_count(a: &Self) -> usize {
+        Rc::strong_count(&a.0)
+    }
+    pub fn weak_count(a: &Self) -> usize {
+        Rc::weak_count(&a.0)
+    }
+    pub fn as_ptr(a: &Self) -> *const T {
+        Rc::as_ptr(&a.0)
+    }
+    pub fn get_mut(a: &mut Self) -> Option<&mut T> {
+        Rc::get_mut(&mut a.0)
+    }
+    pub fn try_unwrap(a: Self) -> Result<T, Self> {
+        Rc::try_unwrap(a.0).map_err(Arc)
+    }
+}
+impl<T> AsRef<T> for Arc<T> {
+    fn as_ref(&self) -> &T {
+        &self.0
+    }
 }
 impl<T> Clone for Arc<T> {
     fn clone(&self) -> Self {
@@ -52,6 +73,15 @@ impl<T> Mutex<T> {
     pub fn lock(&self) -> Result<RefMut<'_, T>, ()> {
         Ok(self.0.borrow_mut())
     }
+    pub fn try_lock(&self) -> Result<RefMut<'_, T>, ()> {
+        self.0.try_borrow_mut().map_err(|_| ())
+    }
+    pub fn get_mut(&mut self) -> Result<&mut T, ()> {
+        Ok(self.0.get_mut())
+    }
+    pub fn into_inner(self) -> Result<T, ()> {
+        Ok(self.0.into_inner())
+    }
 }
 
 /// FIFO queue with the VecDeque API subset vm.rs uses.
@@ -72,6 +102,33 @@ impl<T> VecDeque<T> {
     }
     pub fn len(&self) -> usize {
         self.0.len()
+    }
+    pub fn is_empty(&self) -> bool {
+        self.0.is_empty()
+    }
+    pub fn with_capacity(n: usize) -> Self {
+        VecDeque(Vec::with_capacity(n))
+    }
+    pub fn push_front(&mut self, t: T) {
+        self.0.insert(0, t)
+    }
+    pub fn pop_back(&mut self) -> Option<T> {
+        self.0.pop()
+    }
+    pub fn front(&self) -> Option<&T> {
+        self.0.first()
+    }
+    pub fn back(&self) -> Option<&T> {
+        self.0.last()
+    }
+    pub fn front_mut(&mut self) -> Option<&mut T> {
+        self.0.first_mut()
+    }
+    pub fn get(&self, i: usize) -> Option<&T> {
+        self.0.get(i)
+    }
+    pub fn clear(&mut self) {
+        self.0.clear()
     }
     pub fn iter(&self) -> std::slice::Iter<'_, T> {
         self.0.iter()
@@ -101,6 +158,10 @@ pub mod mpsc {
         pub fn try_recv(&self) -> Result<T, ()> {
             let mut q = self.0.borrow_mut();
             if q.is_empty() { Err(()) } else { Ok(q.remove(0)) }
+        }
+        pub fn try_iter(&self) -> std::vec::IntoIter<T> {
+            let mut q = self.0.borrow_mut();
+            std::mem::take(&mut *q).into_iter()
         }
     }
     pub fn channel<T>() -> (Sender<T>, Receiver<T>) {
